@@ -26,3 +26,6 @@ ASSUMPTIONS = [
     "kurtosis is not compared on constant channels (undefined in the two-pass definition)",
     "fault configuration: the call raises or returns the exact result",
 ]
+
+# dimensions added in seeded rounds 6 and 7
+PROBES = list(PROBES) + ["integer-arguments-as-numpy-scalars"]
